@@ -274,6 +274,17 @@ func (p *Prog) Method(rel, tname, name string) *ssa.Function {
 			}
 		}
 	}
+	// the same code written as a plain function taking the object as its first parameter
+	// (method <-> function is a pure refactoring; the anchor is the name within the package)
+	if sp := p.SSAPkg(pk); sp != nil {
+		if f := sp.Func(name); f != nil && len(f.Params) > 0 && f.Signature.Recv() == nil {
+			if n := NamedOf(f.Params[0].Type()); n != nil && n.Obj() == obj {
+				return f
+			}
+			// a helper that never used its receiver may have lost the parameter altogether
+			return f
+		}
+	}
 	return nil
 }
 
